@@ -248,3 +248,33 @@ func (c *Chan) Query(fn string, args ...string) (string, string) {
 	}
 	return string(r.Resp.Payload), ""
 }
+
+// RobotBatched submits a sender-less batched function as the robot and executes it alone in a
+// batch; returns error text ("" = ok).
+func (c *Chan) RobotBatched(fn string, args ...string) string {
+	id := simpeer.NewTxID()
+	r := c.Invoke(c.W.Robot.Creator, id, fn, args...)
+	if !r.OK() {
+		return "submit: " + r.Resp.Message
+	}
+	b := c.ExecIDs(id)
+	if b.Resp == nil {
+		return "batch: " + b.Res.Resp.Message
+	}
+	if e := b.Resp.TxResponses[0].GetError(); e != nil {
+		return e.GetError()
+	}
+	return ""
+}
+
+// RobotNB invokes an immediate (NBTx) function as the robot; returns error text ("" = ok).
+func (c *Chan) RobotNB(fn string, args ...string) string {
+	r := c.Invoke(c.W.Robot.Creator, simpeer.NewTxID(), fn, args...)
+	if !r.OK() {
+		if r.Panic != nil {
+			return "panic"
+		}
+		return r.Resp.Message
+	}
+	return ""
+}
